@@ -141,6 +141,7 @@ def stepOp (s : St) (f : List String) : Step :=
   | some "file" => ⟨s, []⟩
   | some "fault" => ⟨s, ["ok"]⟩
   | some "limit" => ⟨s, ["ok"]⟩
+  | some "fired" => ⟨s, []⟩
   | some "mark" => ⟨s, ["ok"]⟩
   | some "snap" => ⟨s, ["ok"]⟩
   | some "usefile" => ⟨{ s with txs := [], handles := [] }, ["ok"]⟩
